@@ -39,6 +39,7 @@ type Step struct {
 	W      int    `json:"w,omitempty"`      // pool writer index, -9 = nil writer
 	Level  int    `json:"level,omitempty"`
 	AsOpt  []Step `json:"opts,omitempty"` // for new: writer operations passed as New(...) options
+	Blank  bool   `json:"blank,omitempty"` // for probe: a blank Println() / Print("") at the Always severity (delivered as a bare line break)
 	Via    string `json:"via,omitempty"`  // for new with a parent: "" parent.New(name, opts...) | WithSkip | WithLevel | WithAttrs (options applied as methods afterwards)
 }
 
@@ -53,6 +54,9 @@ func (s Step) String() string {
 		}
 		return fmt.Sprintf("L%d=new(parent=%d,opts=%v)", s.Logger, s.Parent, s.AsOpt)
 	case "probe":
+		if s.Blank {
+			return fmt.Sprintf("L%d.blankPrintln()", s.Logger)
+		}
 		return fmt.Sprintf("L%d.probe(%d)", s.Logger, s.Level)
 	case "AddLevelWriter", "RemoveLevelWriter":
 		return fmt.Sprintf("L%d.%s(%d,w%d)", s.Logger, s.Op, s.Level, s.W)
@@ -238,10 +242,22 @@ func interp(script []Step, skipUngiven bool) (obs []Obs) {
 				}
 				before := log.Len()
 				o.Token = fmt.Sprintf("probe-%d-tok", n)
-				loggers[s.Logger].LogAttrs(context.Background(), slog.Level(s.Level), o.Token)
+				if s.Blank {
+					if n%2 == 0 {
+						loggers[s.Logger].Println()
+					} else {
+						loggers[s.Logger].Print("")
+					}
+				} else {
+					loggers[s.Logger].LogAttrs(context.Background(), slog.Level(s.Level), o.Token)
+				}
 				for _, e := range log.Snapshot()[before:] {
+					tok := bytes.Contains(e.Payload, []byte(o.Token))
+					if s.Blank {
+						tok = string(e.Payload) == "\n" // the blank line is the record
+					}
 					o.Events = append(o.Events, ObsEvt{W: e.W, Kind: e.Kind, Level: int(e.Level),
-						Tok: bytes.Contains(e.Payload, []byte(o.Token)), NL: bytes.HasSuffix(e.Payload, []byte("\n"))})
+						Tok: tok, NL: bytes.HasSuffix(e.Payload, []byte("\n"))})
 				}
 			default:
 				if s.Op != "RemoveWriter" && s.Op != "RemoveErrorWriter" {
@@ -407,7 +423,7 @@ func verify(t vlib.TB, script []Step, obs []Obs, stdCount func(n int, tok string
 				}
 			}
 			so := stdCount(n, o.Token, given[s.Logger])
-			if so.known {
+			if so.known && !s.Blank { // a blank line carries no token that could be counted in the standard streams
 				if so.out != count(want, stdoutID) || so.err != count(want, stderrID) {
 					vlib.Discrep(t, "C03/route-std", "C03 after [%s]: stdout got %d and stderr %d records, model says %d and %d (dest=%v)",
 						hist(n), so.out, so.err, count(want, stdoutID), count(want, stderrID), want)
@@ -520,6 +536,10 @@ func genScript(t *rapid.T, maxLoggers, maxSteps int) []Step {
 			newLogger()
 		case k <= 3:
 			lg := rapid.IntRange(0, nLoggers-1).Draw(t, "logger")
+			if rapid.IntRange(0, 7).Draw(t, "blankProbe") == 0 {
+				script = append(script, Step{Op: "probe", Logger: lg, Level: int(slog.AlwaysLevel), Blank: true})
+				break
+			}
 			script = append(script, Step{Op: "probe", Logger: lg, Level: rapid.SampledFrom(probeLevels).Draw(t, "severity")})
 		default:
 			lg := rapid.IntRange(0, nLoggers-1).Draw(t, "logger")
